@@ -6,6 +6,7 @@ Only statements live here; the proofs are in CueVerif/Proofs/{Semver,Mvs}.lean.
 -/
 import CueVerif.Proofs.Semver
 import CueVerif.Proofs.Mvs
+import CueVerif.Proofs.Work
 namespace CueVerif.C14
 open CueVerif
 
@@ -105,5 +106,35 @@ theorem C14_once (g : Mvs.Graph) (roots : List Mvs.Node) (s : Mvs.St)
 example : (Mvs.runFifo (fun n => if n = (0,1) then [(1,1),(2,1)] else if n = (1,1) then [(3,1)]
     else if n = (2,1) then [(3,2)] else if n = (3,2) then [(1,1)] else []) 10 (Mvs.init [(0,1)])).sel 3 = 2 := by
   decide
+
+/-! ### the work set's termination detection (par.Work.Do / runner) -/
+
+/-- A runner returns only when nothing is left: in every reachable state in which some
+runner has returned, `todo` is empty and every other runner has returned or has been
+woken by the final Broadcast (none is idle, sleeping or still running `f`). -/
+theorem C14_work_return_safe (n m : Nat) (s : Work.St) (h : Work.Run n m s)
+    (hd : Work.Phase.done ∈ s.phases) :
+    s.todo = 0 ∧ ∀ p ∈ s.phases, p = .done ∨ p = .woken :=
+  Work.return_safe n m s h hd
+
+/-- No lost wake-up, no deadlock: a reachable state in which no runner can take a step is
+one in which every runner has returned (and then, by the theorem above, todo is empty). -/
+theorem C14_work_no_deadlock (n m : Nat) (s : Work.St) (h : Work.Run n m s) (hn : 0 < n)
+    (hs : Work.Stuck s) : (∀ p ∈ s.phases, p = .done) ∧ s.todo = 0 :=
+  Work.no_deadlock n m s h hn hs
+
+-- non-vacuity: two runners, one initial item that adds one more: a concrete run in which the
+-- first runner has returned and the second has been woken by the final Broadcast
+example : Work.Run 2 1 { todo := 0, waiting := 2, phases := [.done, .woken] } := by
+  have s0 : Work.Run 2 1 (Work.init 2 1) := .init
+  have s1 := Work.Run.step s0 (Work.Step.idleTake _ 0 1 (by decide) (by decide))
+  have s2 := Work.Run.step s1 (Work.Step.idleEmpty _ 1 (by decide) (by decide))
+  have s3 := Work.Run.step s2 (Work.Step.add _ 0 0 (by decide))
+  have s4 := Work.Run.step s3 (Work.Step.finish _ 0 (by decide))
+  have s5 := Work.Run.step s4 (Work.Step.idleTake _ 0 0 (by decide) (by decide))
+  have s6 := Work.Run.step s5 (Work.Step.finish _ 0 (by decide))
+  have s7 := Work.Run.step s6 (Work.Step.wokenEmpty _ 1 (by decide) (by decide))
+  have s8 := Work.Run.step s7 (Work.Step.idleEmpty _ 0 (by decide) (by decide))
+  simpa [Work.init, Work.enter, Work.broadcast, Work.signal] using s8
 
 end CueVerif.C14
